@@ -852,6 +852,19 @@ def rule_R17(toks, fired):
     return toks
 
 
+def rule_R18(toks, fired):
+    """bare max(a, b) / min(a, b) (core::cmp, imported by `use`) -> usize_max(a, b) / usize_min(a, b): the generic
+    Ord-based functions have no Verus spec; the prelude helpers are ASSUMED to be the usize instances"""
+    for i, t in enumerate(toks):
+        if t.kind == "ident" and t.text in ("max", "min"):
+            pv = prev_code(toks, i - 1)
+            nx = next_code(toks, i + 1)
+            if toks[pv].text not in (".", "::") and toks[nx].text == "(":
+                t.text = "usize_" + t.text
+                fired["R18"] = fired.get("R18", 0) + 1
+    return toks
+
+
 def _contains_continue(toks, lo, hi):
     """is there a `continue` in lo..hi that belongs to this loop (not to a nested loop / closure)?"""
     i = lo
@@ -959,9 +972,9 @@ def rule_R12(toks, fired):
     return out
 
 
-RULES = {"R17": rule_R17, "R13": rule_R13, "R5": rule_R5, "R1": rule_R1, "R1f": rule_R1f, "R2": rule_R2, "R3": rule_R3, "R4": rule_R4, "R6": rule_R6, "R7": rule_R7,
+RULES = {"R18": rule_R18, "R17": rule_R17, "R13": rule_R13, "R5": rule_R5, "R1": rule_R1, "R1f": rule_R1f, "R2": rule_R2, "R3": rule_R3, "R4": rule_R4, "R6": rule_R6, "R7": rule_R7,
          "R10": rule_R10, "R11": rule_R11, "R12": rule_R12}
-RULE_ORDER = ["R12", "R7", "R6", "R13", "R17", "R10", "R4", "R3", "R5", "R11", "R2", "R1", "R1f"]
+RULE_ORDER = ["R12", "R7", "R6", "R13", "R18", "R17", "R10", "R4", "R3", "R5", "R11", "R2", "R1", "R1f"]
 
 
 def apply_rules(toks, rules, fired):
